@@ -222,6 +222,19 @@ func findBit(bytes []byte, startIndex, endIndex, width int, searchBit, noEnd boo
 	bits := len(bytes) * 8
 	end := bits - 1
 
+	// indexes beyond the string in either direction behave like the nearest
+	// boundary; clamp them first so that index*width cannot overflow
+	if startIndex > bits {
+		startIndex = bits
+	} else if startIndex < -bits {
+		startIndex = -bits
+	}
+	if endIndex > bits {
+		endIndex = bits
+	} else if endIndex < -bits {
+		endIndex = -bits
+	}
+
 	// convert to bits and determine negative offsets
 	var startBit, endBit int
 	if startIndex < 0 {
